@@ -113,6 +113,13 @@ func c01Enumerate(tier string, seed int64, emit func(string, any)) {
 			emit("matrix", c01Case{Pre: gen.Prelude, Srcs: []string{s}, Cfg: c})
 		}
 	})
+	// (ii') host-supplied values (GlobalValueLoadFunc table: never-compiled computed values and functions, a
+	// self-referential one, bodies that are not valid syntax, native object / function), with observers installed
+	host := hooked
+	host.Host, host.OpLimit = true, 3000
+	gen.MatrixOver(drv.HostValues, append(gen.ValuesSmall[:len(gen.ValuesSmall):len(gen.ValuesSmall)], drv.HostValues...), func(s string) {
+		emit("host values", c01Case{Pre: gen.Prelude, Srcs: []string{s, s}, Cfg: host})
+	})
 	// (iii) ladders
 	// ladders: parser memory is proportional to the parse budget (~100 B per expression, memoisation),
 	// so the long-input ladders run under a 10^6 parse budget to stay inside the worker's address-space limit
